@@ -360,6 +360,18 @@ fn const_value(decl_ty: &str, e: &Expr) -> Option<Sexp> {
     match e {
         Expr::Lit(ExprLit { lit, .. }) => match lit {
             Lit::Bool(b) if !neg => Some(tagged("bval", vec![boolean(b.value)])),
+            // `quote!` prints `11.0f32` as `11f32`, which lexes as an integer literal with a float suffix
+            Lit::Int(i) if i.suffix() == "f32" || i.suffix() == "f64" => {
+                let digits = i.base10_digits();
+                let bits: u64 = if i.suffix() == "f32" {
+                    let v: f32 = digits.parse().ok()?;
+                    (if neg { -v } else { v }).to_bits() as u64
+                } else {
+                    let v: f64 = digits.parse().ok()?;
+                    (if neg { -v } else { v }).to_bits()
+                };
+                Some(tagged("fval", vec![nat(bits), string(i.suffix())]))
+            }
             Lit::Int(i) => {
                 let v: i128 = i.base10_parse::<i128>().ok()?;
                 let v = if neg { -v } else { v };
